@@ -20,7 +20,7 @@ def main():
     wt.parent.mkdir(parents=True, exist_ok=True)
     sh(f"git -C /repo worktree remove --force {wt}")
     assert sh(f"git -C /repo worktree add --detach {wt} HEAD").returncode == 0
-    env = dict(os.environ, PYTHONPATH=f"{wt}/src", QIBO_LOG_LEVEL="5")
+    env = dict(os.environ, PYTHONPATH=f"{wt}/src", QIBO_LOG_LEVEL="5", OPENBLAS_NUM_THREADS="1", OMP_NUM_THREADS="1")
     out = {"repo_head": sh("git -C /repo rev-parse --short HEAD").stdout.strip()}
     out["demo_clean_exit"] = subprocess.run(["/venv/bin/python", str(seed / "demo.py")], env=env, cwd=wt, capture_output=True).returncode
     a = sh(f"git -C {wt} apply {seed / 'patch.diff'}")
